@@ -1,6 +1,7 @@
 ------------------------------ MODULE Cascade ------------------------------
 (* The cascade: building every tile above the start level of a tile pyramid  *)
-(* from its four children (properties C02 and C14).                          *)
+(* from its four children (properties C02 and C14).  The constant-level part *)
+(* (arithmetic, pixels, reduce rule, placement, one merge) is TileMerge.tla. *)
 (*                                                                           *)
 (* Transcribes, from toasty/merge.py:                                        *)
 (*   SLICES_MATCHING_PARITY / SLICES_OPPOSITE_PARITY   (Slices)              *)
@@ -47,118 +48,12 @@
 (* never averages down to the undefined value 0), no negative integers, no    *)
 (* entirely zero integer leaf, a Colour pixel with alpha 0 is all zero.       *)
 (* Leaf values are integers; the harness maps them to concrete pixel values.  *)
-EXTENDS Quadtree, Integers, TLC
+EXTENDS TileMerge
 
-CONSTANTS T,        \* tile edge in abstract pixels (a power of two)
-          Depth,    \* start level of the cascade (level of the leaves)
+CONSTANTS Depth,    \* start level of the cascade (level of the leaves)
           Cases,    \* set of case records, see CaseOK
           Window    \* exploration bound: only the first Window ready positions (in walk order) may run next;
                     \* Window >= 4^(Depth-1) is no restriction at all (every children-first order is explored)
-
-Modes == {"Float", "Int", "Colour"}
-NCh(mode) == IF mode = "Colour" THEN 4 ELSE 1
-Idx == 1..T
-
-\* ---------------------------------------------------------------- arithmetic
-Abs(n) == IF n < 0 THEN -n ELSE n
-RECURSIVE Gcd(_, _)
-Gcd(a, b) == IF b = 0 THEN a ELSE Gcd(b, a % b)
-Lcm(a, b) == (a \div Gcd(a, b)) * b
-Norm(n, d) == LET g == Gcd(Abs(n), d) IN <<n \div g, d \div g>>
-SetMin(S) == CHOOSE m \in S : \A o \in S : m <= o
-SetMax(S) == CHOOSE m \in S : \A o \in S : m >= o
-
-Undef == <<0, 0>>
-\* mean of the defined rationals among four (Float)
-PosInf == <<1, 0>>
-NegInf == <<-1, 0>>
-\* An infinite pixel is a DEFINED value.  The mean of a block holding +inf (and no -inf) is +inf; a block holding both
-\* infinities has no mean (IEEE: inf - inf): the output is undefined.  This is the one case in which an output
-\* pixel is undefined although not all four inputs are (the property's "NaN only if all four are" speaks about
-\* undefined INPUTS, which never make the output undefined by themselves).
-RatMean(q) ==
-    LET def == {i \in 1..4 : q[i][2] # 0}          \* the finite members
-        k == Cardinality(def)
-        pinf == \E i \in 1..4 : q[i] = PosInf
-        ninf == \E i \in 1..4 : q[i] = NegInf
-    IN IF pinf /\ ninf THEN Undef
-       ELSE IF pinf THEN PosInf
-       ELSE IF ninf THEN NegInf
-       ELSE IF k = 0 THEN Undef
-       ELSE LET den(i) == IF i \in def THEN q[i][2] ELSE 1
-                l == Lcm(Lcm(den(1), den(2)), Lcm(den(3), den(4)))
-                term(i) == IF i \in def THEN q[i][1] * (l \div q[i][2]) ELSE 0
-            IN Norm(term(1) + term(2) + term(3) + term(4), l * k)
-\* mean of four stored integers, either integer neighbour of the exact mean (Int, Colour)
-\* (floor and ceiling of sum/4 written so that no intermediate exceeds the largest member: TLC integers are 32-bit
-\* and int32 pixels go up to 2^31 - 1)
-IntMean(q) == <<(q[1][1] \div 4) + (q[2][1] \div 4) + (q[3][1] \div 4) + (q[4][1] \div 4)
-                  + ((q[1][1] % 4) + (q[2][1] % 4) + (q[3][1] % 4) + (q[4][1] % 4)) \div 4,
-                (q[1][2] \div 4) + (q[2][2] \div 4) + (q[3][2] \div 4) + (q[4][2] \div 4)
-                  + ((q[1][2] % 4) + (q[2][2] % 4) + (q[3][2] % 4) + (q[4][2] % 4) + 3) \div 4>>
-ReducePair(mode, q) == IF mode = "Float" THEN RatMean(q) ELSE IntMean(q)
-ReducePx(mode, p1, p2, p3, p4) == [ch \in 1..NCh(mode) |-> ReducePair(mode, <<p1[ch], p2[ch], p3[ch], p4[ch]>>)]
-
-\* ---------------------------------------------------------------- pixels and tiles
-UPx(mode) == [ch \in 1..NCh(mode) |-> Undef]
-IsUPx(mode, px) == IF mode = "Colour" THEN px[4][2] = 0 ELSE IF mode = "Float" THEN px[1] = Undef ELSE px[1][2] = 0
-\* a leaf pixel as given by the case: <<>> = undefined (Float only), <<1, 0>> / <<-1, 0>> = +inf / -inf (Float only),
-\* else the channel values
-LeafPx(mode, v) == IF v = <<>> THEN UPx(mode)
-                   ELSE IF mode = "Float" /\ Len(v) = 2 THEN <<v>>
-                   ELSE [ch \in 1..NCh(mode) |-> IF mode = "Float" THEN <<v[ch], 1>> ELSE <<v[ch], v[ch]>>]
-Matrix(f(_, _), n) == [r \in 1..n |-> [col \in 1..n |-> f(r, col)]]
-AllUndef(mode, m) == \A r \in DOMAIN m : \A col \in DOMAIN m[r] : IsUPx(mode, m[r][col])
-FlipRows(m) == [r \in DOMAIN m |-> m[Len(m) + 1 - r]]
-\* a bottom-up format (FITS) stores the displayed rows in reverse order
-ToFile(bottomup, m) == IF bottomup THEN FlipRows(m) ELSE m
-ToDisplay(bottomup, m) == IF bottomup THEN FlipRows(m) ELSE m
-
-NoRange == <<>>
-Absent == [ex |-> FALSE, px |-> <<>>, rng |-> NoRange]
-Tile(m, rng) == [ex |-> TRUE, px |-> m, rng |-> rng]
-FlipTile(bottomup, t) == IF t.ex THEN [t EXCEPT !.px = ToFile(bottomup, t.px)] ELSE t
-
-\* 2x2 block reduction of a 2T x 2T mosaic
-BlockReduce(mode, mos) ==
-    Matrix(LAMBDA r, col : ReducePx(mode, mos[2 * r - 1][2 * col - 1], mos[2 * r - 1][2 * col],
-                                           mos[2 * r][2 * col - 1], mos[2 * r][2 * col]), T)
-
-\* ---------------------------------------------------------------- the code's placement (stored orientation)
-\* merge.py: the (row half, column half) of the 512 x 512 buffer that receives child slot s (pos_children order)
-SlicesMatching == <<<<0, 0>>, <<0, 1>>, <<1, 0>>, <<1, 1>>>>
-SlicesOpposite == <<<<1, 0>>, <<1, 1>>, <<0, 0>>, <<0, 1>>>>
-Slices(bottomup) == IF bottomup THEN SlicesOpposite ELSE SlicesMatching
-\* the cleared buffer after update_into_maskable_buffer of every existing child (kids: sequence of 4 tiles)
-Mosaic(mode, bottomup, kids) ==
-    LET sl == Slices(bottomup)
-        slotAt(hr, hc) == CHOOSE s \in 1..4 : sl[s] = <<hr, hc>>
-    IN Matrix(LAMBDA r, col :
-                 LET k == kids[slotAt((r - 1) \div T, (col - 1) \div T)]
-                 IN IF k.ex THEN k.px[((r - 1) % T) + 1][((col - 1) % T) + 1] ELSE UPx(mode), 2 * T)
-
-\* _get_min_max_of_children: min of the children's recorded minima, max of their maxima (children without
-\* a recorded range are skipped; nothing recorded at all -> no explicit range)
-KidsRange(kids) ==
-    LET have == {i \in 1..4 : kids[i].ex /\ kids[i].rng # NoRange}
-    IN IF have = {} THEN NoRange
-       ELSE <<SetMin({kids[i].rng[1] : i \in have}), SetMax({kids[i].rng[2] : i \in have})>>
-
-\* walk_callback(pos): `old` is whatever file is at pos before the call
-MergeTile(mode, bottomup, ranged, kids, old) ==
-    IF \A i \in 1..4 : ~kids[i].ex THEN old                        \* early return: nothing read, nothing written
-    ELSE LET m == BlockReduce(mode, Mosaic(mode, bottomup, kids))
-         IN IF AllUndef(mode, m) THEN Absent                       \* not written; an earlier file is removed
-            ELSE Tile(m, IF ranged THEN KidsRange(kids) ELSE NoRange)
-
-\* ---------------------------------------------------------------- the property's sentence (display orientation)
-\* child (2x+i, 2y+j), i.e. slot 2j+i, occupies quadrant (row j, column i) of the displayed mosaic
-DisplayMosaic(mode, kids) ==
-    Matrix(LAMBDA r, col :
-              LET j == (r - 1) \div T
-                  i == (col - 1) \div T
-                  k == kids[2 * j + i + 1]
-              IN IF k.ex THEN k.px[((r - 1) % T) + 1][((col - 1) % T) + 1] ELSE UPx(mode), 2 * T)
 
 \* ---------------------------------------------------------------- cases
 \* c.mode      mode class
